@@ -85,17 +85,9 @@ func newServerSocket(
 		s.pid = previousSession.PID
 		s.recovered = true
 		s.Join(previousSession.Rooms...)
-		for _, missedPacket := range previousSession.MissedPackets {
-			// Encoding transforms the header and the values in place (see sessionAwareAdapter.Broadcast).
-			// The packet stays in the log (other sessions may need it), so encode a copy.
-			header := *missedPacket.Header
-			data := make([]any, len(missedPacket.Data))
-			copy(data, missedPacket.Data)
-			buffers, err := s.parser.Encode(&header, &data)
-			if err != nil {
-				return nil, err
-			}
-			s.conn.sendBuffers(buffers...)
+		err := s.sendMissedPackets(previousSession.MissedPackets)
+		if err != nil {
+			return nil, err
 		}
 	} else {
 		id, err := eio.GenerateBase64ID(eio.Base64IDSize)
@@ -115,6 +107,22 @@ func newServerSocket(
 	}
 	nsp.debug.Log("New socket! ID", s.id)
 	return s, nil
+}
+
+func (s *serverSocket) sendMissedPackets(missedPackets []*adapter.PersistedPacket) error {
+	for _, missedPacket := range missedPackets {
+		// Encoding transforms the header and the values in place (see sessionAwareAdapter.Broadcast).
+		// The packet stays in the log (other sessions may need it), so encode a copy.
+		header := *missedPacket.Header
+		data := make([]any, len(missedPacket.Data))
+		copy(data, missedPacket.Data)
+		buffers, err := s.parser.Encode(&header, &data)
+		if err != nil {
+			return err
+		}
+		s.conn.sendBuffers(buffers...)
+	}
+	return nil
 }
 
 func (s *serverSocket) Server() *Server { return s.server }
